@@ -408,8 +408,14 @@ func (o *lifeOracle) c16(e *Env, si *StepInfo) {
 				if i := strings.Index(base, "|"); i >= 0 {
 					base = base[:i]
 				}
-				if base != pm.Commit {
-					o.once(e, "C16", "C16.base", lab, "update-accepted-on-wrong-base", st.Proposal.DataId, fmt.Sprintf("update of data %s accepted with base %q (commit field %q) but the latest committed version is %q", st.Proposal.DataId, base, st.Proposal.CommitId, pm.Commit))
+				// the latest committed version: the last entry of the committed history (the model's head
+				// pointer must agree with it whenever no update is in flight)
+				latest := pm.Commit
+				if n := len(pm.Commits); n > 0 {
+					latest = strings.SplitN(pm.Commits[n-1], "\x1a", 2)[0]
+				}
+				if base != latest {
+					o.once(e, "C16", "C16.base", lab, "update-accepted-on-wrong-base", st.Proposal.DataId, fmt.Sprintf("update of data %s accepted with base %q (commit field %q) but the latest committed version is %q (head pointer %q)", st.Proposal.DataId, base, st.Proposal.CommitId, latest, pm.Commit))
 				}
 				if pm.Status != modeltypes.MetaComplete {
 					o.once(e, "C16", "C16.inflight", lab, "update-accepted-while-in-flight", st.Proposal.DataId, fmt.Sprintf("update of data %s accepted while the model status is %d", st.Proposal.DataId, pm.Status))
